@@ -4,3 +4,7 @@ package sched
 
 // verifNow is the virtual clock of the verification harness; without the build tag there is none.
 func verifNow(*TimerQueue) (int64, bool) { return 0, false }
+
+// verifYield marks the schedule points inside an expiry pass (before the worker takes the guard to decide
+// about a node, and before it sends a decided node on C); without the build tag it does nothing.
+func verifYield(owner interface{}, point string, id int) {}
